@@ -49,7 +49,7 @@ CONSTANTS MaxNodes,      \* node ids 1..MaxNodes
           MaxLevel,      \* depth bound (state constraint)
           Mirror,        \* see above
           Cache,         \* see above
-          InitSet,       \* "root": one empty object;  "chains": a family of 3-node chains with placeholders at the bottom
+          InitSet,       \* "root": one empty object;  "chains": all 27 3-node chains with placeholders at the bottom;  "diag": 7 of them
           SimK           \* 0: quantify over whole argument sets; k > 0: over k random members (simulation)
 
 VARIABLES kind,          \* node -> "free" | "obj" | "dict" | "list"
@@ -169,17 +169,18 @@ ObsOf(s, stk) == [n \in Nodes |-> [k \in AllKeys |-> IF s.kind[n] = "free" \/ Ge
 CodedOf(s, stk) == [n \in Nodes |-> [k \in AllKeys |-> s.kind[n] # "free" /\ Get(s, n, k) # ABSENT
                                                         /\ ResolveG(TRUE, s, stk, n, k) = IDXERR]]
 \* The rule allows a placeholder to resolve to a node that CONTAINS its holder (o.x = child, child.x = placeholder reads as
-\* child).  Following resolved values instead of stored ones therefore need not terminate: Cyclic(n) says that it does not
+\* child).  Following resolved values instead of stored ones therefore need not terminate: cyc[n] says that it does not
 \* when started at n.  Edges are taken under the active scopes and under none (printing does not consult the holder's
 \* overrides), which over-approximates: cyc = FALSE means every consumer that follows inferred values must terminate.
-ResKids(s, stk, m) == (UNION {{ResolveG(FALSE, s, stk, m, k), ResolveG(FALSE, s, <<>>, m, k)} : k \in KeysOf(s, m)}) \cap Nodes
-RECURSIVE ReachN(_,_,_,_)
-ReachN(s, stk, S, i) == IF i = 0 THEN S
-                        ELSE LET T == S \cup UNION {ResKids(s, stk, m) : m \in S} IN
-                             IF T = S THEN S ELSE ReachN(s, stk, T, i - 1)
-ReachPlus(s, stk, n) == ReachN(s, stk, ResKids(s, stk, n), MaxNodes)
-Cyclic(s, stk, n) == \E m \in ReachPlus(s, stk, n) \cup {n} : m \in ReachPlus(s, stk, m)
-CycOf(s, stk) == [n \in Nodes |-> s.kind[n] # "free" /\ Cyclic(s, stk, n)]
+KidsOf(o, o0, m) == ({o[m][k] : k \in AllKeys} \cup {o0[m][k] : k \in AllKeys}) \cap Nodes
+RECURSIVE ReachT(_,_,_)
+ReachT(kids, S, i) == IF i = 0 THEN S
+                      ELSE LET T == S \cup UNION {kids[m] : m \in S} IN
+                           IF T = S THEN S ELSE ReachT(kids, T, i - 1)
+CycFrom(o, o0) ==            \* o, o0: observation tables under the active scopes / under none
+  LET kids == [m \in Nodes |-> KidsOf(o, o0, m)]
+      rp == [m \in Nodes |-> ReachT(kids, kids[m], MaxNodes)]
+  IN [n \in Nodes |-> \E m \in rp[n] \cup {n} : m \in rp[m]]
 NoMemo == [n \in Nodes |-> [k \in AllKeys |-> NOMEMO]]
 
 ---------------------------------------------------------------------------
@@ -229,7 +230,9 @@ Commit(s, stk, o) ==
   /\ kind' = s.kind /\ fld' = s.fld /\ seq' = s.seq /\ parent' = s.parent /\ pkey' = s.pkey
   /\ ovs' = stk /\ out' = o
   /\ memo' = IF Cache = "flush" THEN NoMemo ELSE memo
-  /\ obs' = ObsOf(s, stk) /\ coded' = CodedOf(s, stk) /\ cyc' = CycOf(s, stk)
+  /\ LET tb == ObsOf(s, stk) IN
+     obs' = tb /\ cyc' = CycFrom(tb, IF stk = <<>> THEN tb ELSE ObsOf(s, <<>>))
+  /\ coded' = CodedOf(s, stk)
 
 ---------------------------------------------------------------------------
 (* Actions                                                                                   *)
@@ -335,14 +338,17 @@ RootState ==
    seq |-> [n \in Nodes |-> <<>>],
    parent |-> [n \in Nodes |-> NULL],
    pkey |-> [n \in Nodes |-> NULL]]
+DiagChains == {<<"obj", "obj", "obj">>, <<"dict", "dict", "dict">>, <<"list", "list", "list">>, <<"obj", "dict", "obj">>,
+               <<"dict", "list", "list">>, <<"list", "obj", "dict">>, <<"obj", "list", "dict">>}
 InitStates == IF InitSet = "root" THEN {RootState}
+              ELSE IF InitSet = "diag" THEN {ChainState(c[1], c[2], c[3]) : c \in DiagChains}
               ELSE {ChainState(a, b, c) : a \in KindSet, b \in KindSet, c \in KindSet}
 
 Init ==
   \E s \in InitStates :
     /\ kind = s.kind /\ fld = s.fld /\ seq = s.seq /\ parent = s.parent /\ pkey = s.pkey
     /\ ovs = <<>> /\ memo = NoMemo /\ out = 0 /\ act = <<"Init", s.kind[1], s.kind[2], s.kind[3]>>
-    /\ obs = ObsOf(s, <<>>) /\ coded = CodedOf(s, <<>>) /\ cyc = CycOf(s, <<>>)
+    /\ obs = ObsOf(s, <<>>) /\ coded = CodedOf(s, <<>>) /\ cyc = CycFrom(ObsOf(s, <<>>), ObsOf(s, <<>>))
 
 Spec == Init /\ [][Next]_vars
 LevelBound == TLCGet("level") <= MaxLevel
@@ -379,7 +385,8 @@ ReadTotal == \A n \in Alive(St) : \A k \in KeysOf(St, n) :
 \* NOT an invariant (negative control G02_acyclic.cfg): resolved values never lead back to the node they were read from.
 \* TLC refutes it in one step (a child stored under z whose own z becomes a placeholder reads as itself), which is why a
 \* consumer that follows inferred values (repr of a ContextualObject) must guard against revisiting a node.
-ResolutionIsAcyclic == \A n \in Alive(St) : ~Cyclic(St, ovs, n)
+ResolutionIsAcyclic == \A n \in Alive(St) : ~cyc[n]
+CycIsCurrent == cyc = CycFrom(ObsOf(St, ovs), ObsOf(St, <<>>))
 
 \* (2) reading changes nothing that a later read or sym_getattr can see
 ReadDoesNotWrite == [][act'[1] = "Read" => UNCHANGED <<kind, fld, seq, parent, pkey, ovs, obs>>]_vars
